@@ -2,12 +2,25 @@ mod rewrite;
 mod string_case;
 mod transformation;
 
+#[cfg(feature = "verif-hooks")]
+#[doc(hidden)]
+pub use rewrite::verif_hooks as rewrite_hooks;
+#[cfg(feature = "verif-hooks")]
+#[doc(hidden)]
+pub use string_case::{verif_hooks as string_case_hooks, Separator, StringCase};
+#[cfg(feature = "verif-hooks")]
+#[doc(hidden)]
+pub use transformation::verif_hooks as transformation_hooks;
+
 use crate::{DeserializeEnv, RuleCore};
 
 use ast_grep_core::meta_var::MetaVarEnv;
 use ast_grep_core::meta_var::MetaVariable;
 use ast_grep_core::{Doc, Language};
 
+#[cfg(feature = "verif-hooks")]
+use crate::verif_hooks::SMap as HashMap;
+#[cfg(not(feature = "verif-hooks"))]
 use std::collections::HashMap;
 use thiserror::Error;
 
